@@ -3,7 +3,7 @@
 spec   : spec/SessionScanContract.tla (ReachWithin, LeadsTo, G1..G4, Verdict)
          spec/SessionScan.tla (design: the level-wise search of sessions.py; E, depth, skip,
          thorough chosen in Init so that TLC ranges over all graphs of a family)
-MC     : MC_SessionScan_{iso3,all3}.cfg (quick) + {iso4,iso4t,shapes5}.cfg (thorough);
+MC     : MC_SessionScan_{iso3,all3q,live3}.cfg (quick) + {all3,live3t,iso4,iso4t,shapes5}.cfg (thorough);
          devM1..devM4 negative controls (Appendix-B mutants), S16literal = witness of S16
 binding: real SessionsScanner.run() over the full virtual-ECU stack (harness/c09_ecu.py) under
          virtual time; code->spec: every scan validated by Trace_SessionScan (TLC, contract layer);
@@ -17,6 +17,7 @@ import itertools
 import json
 import multiprocessing as mp
 import random
+import time
 from concurrent.futures import ThreadPoolExecutor
 from typing import Any
 
@@ -251,15 +252,18 @@ def validate(traces: list[dict[str, Any]], rep: Report | None = None) -> dict[in
 
 def model_check(tier: str, seed: int, rep: Report) -> list[dict[str, Any]]:
     """Design layer vs contract, negative controls, S16 witness, export of design behaviours."""
-    jobs: list[tuple[str, dict[str, Any]]] = [
+    jobs: list[tuple[str, dict[str, Any]]] = []
+    if tier == "thorough":  # long jobs first
+        jobs += [("iso4", {"heap": "8g", "workers": 8}), ("iso4t", {"heap": "8g", "workers": 8}),
+                 ("shapes5", {"seed": seed + 2, "heap": "8g"}), ("all3", {}), ("live3t", {})]
+    jobs += [
+        ("sim4t" if tier == "thorough" else "sim4", {"workers": 1, "seed": seed + 1}),
         ("iso3", {"coverage": True}),
-        ("all3", {}),
+        ("all3q", {}),
+        ("live3", {}),
         ("devM1", {}), ("devM2", {}), ("devM3", {}), ("devM4", {}),
         ("S16literal", {}),
-        ("sim4t" if tier == "thorough" else "sim4", {"workers": 1, "seed": seed + 1}),
     ]
-    if tier == "thorough":
-        jobs += [("iso4", {"heap": "8g"}), ("iso4t", {"heap": "8g"}), ("shapes5", {"seed": seed + 2, "heap": "8g"})]
 
     def one(job: tuple[str, dict[str, Any]]) -> Any:
         name, kw = job
@@ -317,7 +321,7 @@ def replay_design(behaviours: list[dict[str, Any]], n: int, rep: Report, pool: A
     traces = run_cases(cases, pool)
     drift = 0
     for b, t in zip(behaviours, traces):
-        want_hist = list(b["hist"])
+        want_hist = [s for s in b["hist"] if s in (1, 2, 3, 4)]
         got_hist = [r[0] for r in t["reqs"] if r[0] in (1, 2, 3, 4)]
         want_rows = sorted((r["s"], tuple(r["st"])) for r in b["rows"]["$set"])
         got_rows = sorted((r["s"], tuple(r["st"])) for r in t["rows"] if r["s"] in t["result"])
@@ -411,21 +415,28 @@ def run(tier: str, seed: int) -> Report:
     ]
     # ---- 1. model checking (threads) runs while the real scans run (processes)
     cases, info = build_cases(tier, seed)
+    tm: dict[str, float] = {}
+    t0 = time.time()
     # worker processes are forked BEFORE any thread exists
     with mp.get_context("fork").Pool(NPROC) as pool:
         with ThreadPoolExecutor(max_workers=1) as bg:
             fut = bg.submit(model_check, tier, seed, rep)
             traces = run_cases(cases, pool)
+            tm["real_scans_s"] = round(time.time() - t0, 1)
             behaviours = fut.result()
+            tm["model_checking_s"] = round(time.time() - t0, 1)
         # ---- 2. spec -> code
         if not behaviours:
             raise Machinery("TLC exported no design behaviour")
         sim_traces = replay_design(behaviours, 150 if tier == "quick" else 1500, rep, pool)
     traces += sim_traces
+    tm["after_replay_s"] = round(time.time() - t0, 1)
     for t, c in zip(traces, cases + [{"fam": "tlc-design"}] * len(sim_traces)):
         t["fam"] = c["fam"]
     # ---- 3. code -> spec: TLC validates every scan against the contract
     verdicts = validate(traces, rep)
+    tm["after_validation_s"] = round(time.time() - t0, 1)
+    rep.extra["timing"] = tm
     rep.traces = len(traces)
     rep.evaluations = len(traces)
     counts: dict[str, int] = {}
